@@ -7,6 +7,7 @@ import (
 	"os"
 	"path/filepath"
 	"runtime"
+	"runtime/debug"
 	"strings"
 	"sync/atomic"
 	"syscall"
@@ -358,15 +359,51 @@ func c06Budget(n int) time.Duration {
 	return 150*time.Millisecond + time.Duration(n)*40*time.Microsecond
 }
 
-// c06Timed runs fn as request name and returns its CPU cost.
+// c06Timed runs fn as request name on its own goroutine and returns its CPU cost. A request that is
+// blocked (goroutine state, not timing) while no server goroutine can make progress is a deadlock:
+// the child prints the dump and exits, the parent attributes it to the journalled input.
 func c06Timed(name string, fn func()) time.Duration {
 	t0 := cpuNow()
 	c06ReqName.Store(name)
 	c06ReqStart.Store(int64(t0) + 1)
-	fn()
-	c06ReqStart.Store(0)
-	return cpuNow() - t0
+	done := make(chan struct{})
+	var carried *carriedPanic
+	go sessionCall(func() {
+		defer func() {
+			if r := recover(); r != nil {
+				carried = &carriedPanic{Value: r, Stack: string(debug.Stack())}
+			}
+		}()
+		fn()
+	}, done)
+	tick := time.NewTimer(250 * time.Millisecond)
+	defer tick.Stop()
+	blockedSeen := 0
+	for {
+		select {
+		case <-done:
+			c06ReqStart.Store(0)
+			if carried != nil {
+				panic(*carried)
+			}
+			return cpuNow() - t0
+		case <-tick.C:
+			st := sessionCallState()
+			if i := strings.IndexByte(st, '|'); i > 0 && isBlockedState(st[:i]) && ServerGoroutines().Active == 0 {
+				blockedSeen++
+				if blockedSeen >= 3 {
+					fmt.Fprintf(os.Stderr, "VERIF-DEADLOCK case=%d request=%s: the request is blocked and no server goroutine can run\n%s\n\n%s\n", c06Case.Load(), name, st[i+1:], allStacks())
+					os.Exit(95)
+				}
+			} else {
+				blockedSeen = 0
+			}
+			tick.Reset(250 * time.Millisecond)
+		}
+	}
 }
+
+var c06Case atomic.Int64
 
 type c06Req struct {
 	Name string
@@ -408,7 +445,9 @@ func c06Requests(s *Session, uri protocol.DocumentURI, p protocol.Position, whol
 			s.Srv.References(ctx, &protocol.ReferenceParams{TextDocumentPositionParams: tp, Context: protocol.ReferenceContext{IncludeDeclaration: true}})
 		}},
 		{"prepareRename" + at, func() { s.Srv.PrepareRename(ctx, &protocol.PrepareRenameParams{TextDocumentPositionParams: tp}) }},
-		{"rename" + at, func() { s.Srv.Rename(ctx, &protocol.RenameParams{TextDocumentPositionParams: tp, NewName: "renamed:x"}) }},
+		{"rename" + at, func() {
+			s.Srv.Rename(ctx, &protocol.RenameParams{TextDocumentPositionParams: tp, NewName: "renamed:x"})
+		}},
 		{"inlineCompletion" + at, func() {
 			pj, _ := json.Marshal(map[string]any{"textDocument": id, "position": p, "context": map[string]any{"triggerKind": 1}})
 			s.Srv.InlineCompletion(ctx, pj)
@@ -540,6 +579,7 @@ func c06Battery(c *Ctx, r *RNG, dir, text, class string) bool {
 
 func runC06(c *Ctx, idx int64) {
 	st := c.State.(*c06State)
+	c06Case.Store(idx)
 	nMut, nShape, nScale, _ := c06Counts(c.Tier)
 	r := c.RNG(idx, 0)
 	dir := filepath.Join(c.Dir, fmt.Sprintf("w%d", idx))
